@@ -15,7 +15,7 @@ RULE = ('files are assembled from syntactically valid section headers (the '
         'extended by each of the 24 ids, (iii) each id as the first line. '
         'Distinct by construction; non-trivial = sequence has >= 2 sections.')
 FLOOR = {'quick': 10000, 'thorough': 300000}
-REQUIRED_REACH = ['DiffXReader._read_header']
+REQUIRED_REACH = ['reader.py:']
 REQUIRED_COUNTERS = ['rejected_at_oracle_index', 'fully_accepted']
 ASSUMPTIONS = [
     '"..meta -> .change" is a don\'t-care: sections.rst requires >= 1 file '
@@ -52,8 +52,31 @@ def oracle(seq):
     return None, either
 
 
-def check_seq(seq, obs, main_options_everywhere=False):
+def pad_header(part, total):
+    """Pad the header line of a section to ``total`` bytes (incl. LF) with
+    an unknown option."""
+    data, nlines = part
+    eol = data.index(b'\n')
+    h = data[:eol]
+    need = total - (len(h) + 1)
+    if b': ' in h:
+        if need < 5:
+            return part
+        h2 = h + b', p=' + b'v' * (need - 4)
+    else:
+        if need < 4:
+            return part
+        h2 = h + b' p=' + b'v' * (need - 3)
+    return h2 + data[eol:], nlines
+
+
+def check_seq(seq, obs, main_options_everywhere=False, pad=None):
     parts = [section_bytes(s) for s in seq]
+    if pad:
+        # header lines of exactly 96 / 192 / 288 bytes: a legal order must
+        # stay legal wherever headers fall relative to read-ahead blocks
+        parts = [pad_header(p, pad[i % len(pad)])
+                 for i, p in enumerate(parts)]
     if main_options_everywhere:
         # give the first header everything a main header carries, so that a
         # wrong id cannot be rejected for a missing version
@@ -74,7 +97,7 @@ def check_seq(seq, obs, main_options_everywhere=False):
         n += p[1]
     want_k, either = oracle(seq)
     recs, exc, _ = common.read_records(data)
-    case = {'sequence': list(seq),
+    case = {'sequence': list(seq), 'pad': list(pad) if pad else None,
             'main_options_everywhere': main_options_everywhere}
     got_ids = [r['section'] for r in recs]
     if exc is not None and type(exc).__name__ != 'DiffXParseError':
@@ -116,6 +139,9 @@ def check_seq(seq, obs, main_options_everywhere=False):
             obs.violation('error_message_line_mismatch', case, str(exc))
     else:
         obs.count('fully_accepted')
+    if pad:
+        recs = [dict(r, options={k: v for k, v in r['options'].items()
+                                 if k != 'p'}) for r in recs]
     for r, ln, sid in zip(recs, lines, seq):
         if r['line'] != ln or r['level'] != len(sid) - len(sid.lstrip('.')):
             obs.violation('record_line_or_level', case, r)
@@ -156,6 +182,10 @@ def run(ctx):
             if ctx.mine(i):
                 check_seq(p + (ext,), obs)
                 n += 1
+                if i % 16 == 0:
+                    check_seq(p + (ext,), obs,
+                              pad=[(96, 192, 288), (95, 97), (192,)][i // 16 % 3])
+                    n += 1
     for first in H.ALL_IDS:
         for second in ('.change', '.meta', 'diffx'):
             i += 1
@@ -181,4 +211,5 @@ def run(ctx):
 def replay(case, obs):
     obs.case(None, nontrivial=False)
     check_seq(tuple(case['sequence']), obs,
-              case.get('main_options_everywhere', False))
+              case.get('main_options_everywhere', False),
+              pad=case.get('pad'))
